@@ -1188,12 +1188,138 @@ def inline_foreign_tail_calls(P, fn, stmts):
 
 
 
+def inline_foreign_setters(P, fn, stmts):
+    """the statement `x.m(a)` where x is a local / parameter other than self, exactly one class of the package defines m, and the body of m
+    is nothing but attribute stores on self with call-free right-hand sides over self and the parameters (`def _pause(self, now):
+    self.paused_at = now`): replaced by those stores with self := x and the parameters := the call-free arguments.  Dispatch can only
+    reach that method and the stores are all it does, so this is an identity on behaviour; state transitions that a refactoring moved
+    onto the object they are about (event._pause(now), event._resume(now), event._cancel()) are read as written in place."""
+    import copy
+    table = _unique_methods(P)
+
+    def setter_body(fd):
+        body = [s_ for s_ in fd.body if not (isinstance(s_, ast.Expr) and isinstance(s_.value, ast.Constant))]
+        if not body:
+            return None
+        params = {a.arg for a in fd.args.args}
+        for s_ in body:
+            if not (isinstance(s_, (ast.Assign, ast.AugAssign))):
+                return None
+            tg = s_.targets if isinstance(s_, ast.Assign) else [s_.target]
+            if not all(isinstance(t, ast.Attribute) and isinstance(t.value, ast.Name) and t.value.id == 'self' for t in tg):
+                return None
+            if any(isinstance(x, (ast.Call, ast.Lambda, ast.NamedExpr)) for x in ast.walk(s_.value)):
+                return None
+            if any(isinstance(x, ast.Name) and x.id not in params for x in ast.walk(s_.value)):
+                return None
+        return body
+
+    def simple(e):
+        return isinstance(e, (ast.Name, ast.Constant)) or (isinstance(e, ast.Attribute) and simple(e.value))
+
+    def expand(call):
+        f = call.func
+        if not (isinstance(f, ast.Attribute) and isinstance(f.value, ast.Name) and f.value.id not in ('self', 'cls') and f.attr in table):
+            return None
+        c, fd = table[f.attr]
+        if fd is fn or fd.decorator_list or fd.args.vararg or fd.args.kwarg or fd.args.kwonlyargs or not fd.args.args or fd.args.args[0].arg != 'self':
+            return None
+        body = setter_body(fd)
+        if body is None:
+            return None
+        ps = [a.arg for a in fd.args.args[1:]]
+        if any(isinstance(a, ast.Starred) for a in call.args) or len(call.args) > len(ps):
+            return None
+        bind = dict(zip(ps, call.args))
+        for k in call.keywords:
+            if k.arg is None or k.arg not in ps or k.arg in bind:
+                return None
+            bind[k.arg] = k.value
+        nd = len(fd.args.defaults)
+        for p_, d_ in zip(ps[len(ps) - nd:], fd.args.defaults):
+            if p_ not in bind and isinstance(d_, ast.Constant):
+                bind[p_] = d_
+        if set(bind) != set(ps) or not all(simple(v) for v in bind.values()):
+            return None
+        bind = dict(bind, self=f.value)
+
+        class Put(ast.NodeTransformer):
+            def visit_Name(self_, x):
+                if x.id in bind:
+                    new = copy.deepcopy(bind[x.id])
+                    return ast.copy_location(new, x)
+                return x
+        out = []
+        for s_ in body:
+            n_ = Put().visit(copy.deepcopy(s_))
+            for x in ast.walk(n_):
+                ast.copy_location(x, call)
+                if isinstance(x, ast.Attribute) and isinstance(x.ctx, ast.Store) and isinstance(x.value, ast.Name):
+                    x.value.ctx = ast.Load()
+            out.append(ast.fix_missing_locations(n_))
+        return out
+
+    def block(sts):
+        res, changed = [], False
+        for st in sts:
+            if isinstance(st, ast.Expr) and isinstance(st.value, ast.Call):
+                rep = expand(st.value)
+                if rep is not None:
+                    res += rep
+                    changed = True
+                    continue
+            if isinstance(st, (ast.If, ast.For, ast.While, ast.With, ast.Try)):
+                new = None
+                for fld in ('body', 'orelse', 'finalbody'):
+                    sub = getattr(st, fld, None)
+                    if sub:
+                        b2, ch = block(sub)
+                        if ch:
+                            new = new or copy.copy(st)
+                            setattr(new, fld, b2)
+                if isinstance(st, ast.Try):
+                    hs, chh = [], False
+                    for h in st.handlers:
+                        b2, ch = block(h.body)
+                        if ch:
+                            h2 = copy.copy(h)
+                            h2.body = b2
+                            hs.append(h2)
+                            chh = True
+                        else:
+                            hs.append(h)
+                    if chh:
+                        new = new or copy.copy(st)
+                        new.handlers = hs
+                if new is not None:
+                    res.append(new)
+                    changed = True
+                    continue
+            res.append(st)
+        return res, changed
+    if not any(isinstance(x, ast.Call) and isinstance(x.func, ast.Attribute) and x.func.attr in table for st in stmts for x in ast.walk(st)):
+        return stmts
+    out, ch = block(stmts)
+    return out if ch else stmts
+
+
+
+def foreign_prepass(P, fn):
+    """only the passes that read logic moved onto other objects back in place (for analyses that have their own treatment of aliases)"""
+    cached = fn.__dict__.get('_sa_foreign_prepass')
+    if cached is not None and cached[0] is fn.body and cached[1] is P:
+        return cached[2]
+    res = inline_foreign_setters(P, fn, inline_element_predicates(P, fn, fn.body))
+    fn.__dict__['_sa_foreign_prepass'] = (fn.body, P, res)
+    return res
+
+
 def prepass(P, fn):
     """the behaviour-preserving normalisations applied to a function body before its graph is built (cached on the node)"""
     cached = fn.__dict__.get('_sa_prepass')
     if cached is not None and cached[0] is fn.body and cached[1] is P:
         return cached[2]
-    res = inline_foreign_tail_calls(P, fn, inline_element_predicates(P, fn, copy_propagate(fn)))
+    res = inline_foreign_setters(P, fn, inline_foreign_tail_calls(P, fn, inline_element_predicates(P, fn, copy_propagate(fn))))
     fn.__dict__['_sa_prepass'] = (fn.body, P, res)
     return res
 
